@@ -175,10 +175,14 @@ class Evaluator:
             elif p.get("p") == "tuple":
                 self._bind(p, val if val is not None else ("obj", f"${i}"), env)
         st = {"self_after": None, "depth": depth, "early": []}
+        self._stack = getattr(self, "_stack", [])
+        self._stack.append(path)
         try:
             ret = self.eval(h["body"], env, st)
         except _Return as r:
             ret = r.value
+        finally:
+            self._stack.pop()
         # early `return None` / `return Ok(None)` exits are guards (value absent), not alternative results
         st["early"] = [v for v in st["early"] if not (v is not None and not is_form(v) and v[0] == "none")]
         if st["early"]:
@@ -244,6 +248,9 @@ class Evaluator:
                     return self._match_pat(subs[0], val[1], env)
                 if known and val[0] in ("none", "err"):
                     return False
+                if is_form(val) and len(val) == 1 and ONE not in val:
+                    self._match_pat(subs[0], ("obj", list(val)[0]), env)  # payload of an opaque Option-valued term
+                    return None
                 self._match_pat(subs[0], None, env)
                 return None
             if name == "None":
@@ -329,6 +336,8 @@ class Evaluator:
                     if _scalar_ty(ty):
                         return {l: Fraction(1)}
                     return ("obj", self.type_alias.get(ty, l))
+                if not is_form(v) and v[0] == "obj" and "(" in v[1] and ty in self.type_alias:
+                    return ("obj", self.type_alias[ty])  # payload of an opaque call: named by its type's alias
                 if not is_form(v) and v[0] == "obj" and _scalar_ty(ty):
                     return {v[1]: Fraction(1)}
                 if not is_form(v) and v[0] != "bool" and _scalar_ty(ty):
@@ -422,10 +431,8 @@ class Evaluator:
                 probe = dict(env_t)
                 m = self._match_pat(lc["pat"], iv, probe)
                 decided.append(m)
-                if m is True:
-                    env_t.update(probe)
-                else:
-                    self._bind_some(lc["pat"], iv, env_t)
+                env_t.update(probe)
+                if m is not True:
                     undecided_let = undecided_let or m is None
             if decided and n["cond"].get("k") == "LetCond":
                 if all(m is True for m in decided):
@@ -578,8 +585,8 @@ class Evaluator:
         arms = {}
         if str(n.get("src", "")).startswith("TryDesugar") and n["scrut"].get("k") == "Call" and n["scrut"]["args"]:
             v = self.eval(n["scrut"]["args"][0], env, st)
-            if v is not None and not is_form(v) and v[0] == "some":
-                return v[1]
+            if v is not None and not is_form(v) and v[0] == "some" and str(n["scrut"]["args"][0].get("ty", "")).startswith("std::option::Option"):
+                return v[1]  # `?` on an Option; on a Result the Ok payload is the value itself in this domain
             return v
         if self.name_case is not None and _is_name_scrut(n["scrut"]):
             chosen = None
@@ -718,12 +725,31 @@ class Evaluator:
             return recv[1]
         if name == "unwrap_or" and recv is not None and not is_form(recv) and recv[0] == "none" and len(args) == 1:
             return args[0]
+        if name in ("map", "and_then") and recv is not None and not is_form(recv) and recv[0] in ("some", "none") and len(n["args"]) == 1:
+            if recv[0] == "none":
+                return ("none",)
+            cl = n["args"][0]
+            if cl.get("k") == "Closure" and cl.get("params") and isinstance(cl.get("body"), dict):
+                e2 = dict(env)
+                self._bind(cl["params"][0], recv[1], e2)
+                r = self.eval(cl["body"], e2, st)
+                if name == "and_then":
+                    return r
+                return ("some", r)
+        if name == "transpose" and recv is not None and not is_form(recv) and recv[0] in ("some", "none"):
+            return recv
+        if name == "ok" and recv is not None and (is_form(recv) or recv[0] == "obj"):
+            return ("some", recv)
+        if name == "or" and recv is not None and not is_form(recv) and recv[0] == "some":
+            return recv
+        if name == "or" and recv is not None and not is_form(recv) and recv[0] == "none" and len(args) == 1:
+            return args[0]
         if rty in ("f32", "f64") and name in ATOM_METHODS:
             if is_form(recv) and all(is_form(a) for a in args):
                 return atom(name, [recv] + args)
             return None
         d = n.get("inst") or n.get("def") or ""
-        if d.startswith(self.inline_prefixes) and st["depth"] < self.max_depth and d in self.by_path and d not in self.opaque:
+        if d.startswith(self.inline_prefixes) and st["depth"] < self.max_depth and d in self.by_path and d not in self.opaque and (d not in getattr(self, "_stack", []) or any(a is not None and not is_form(a) and a[0] == "variant" for a in args)):
             sub = self.summary(d, self_value=recv, args=args, depth=st["depth"] + 1)
             if sub is not None and sub["ret"] is not None:
                 r = sub["ret"]
